@@ -5,8 +5,8 @@ import json, os, re, shutil, subprocess, time
 
 VERIF = os.path.dirname(os.path.dirname(os.path.abspath(__file__)))
 REPO = os.environ.get('VERIF_REPO', '/repo')
-CACHE = os.path.join(VERIF, '.cache')
-WORK = os.path.join(VERIF, 'work')
+CACHE = os.environ.get('VERIF_CACHE') or os.path.join(VERIF, '.cache')
+WORK = os.environ.get('VERIF_WORK') or os.path.join(VERIF, 'work')
 
 CARGO_TOML = '''[package]
 name = "xcorpus"
